@@ -660,15 +660,15 @@ theorem inv_bytes {E : MW.LedBytes.Env} {c : Ctx} {bs : BStore} {chain : List Bl
 /-- (Round 6) `disconnect_block_on_bytes` — disconnectBlock ON BYTES: TxStore.Rollback (FetchAllMinedBalance, the loop
     over the heights from the cursor down: fetchBlockRecord + the transactions in reverse through `rollback_tx_on_bytes`,
     deleteBlockRecord, the pending spenders of the removed coinbase credits, UpdateMinedBalances), resetSyncedTo (the delete
-    loop and the cursor), the importing wallets' cursors.  Hypotheses beside canonicity are facts about the bytes the step
-    itself produces (`RollbackOut`: the balances written back fit 8 bytes under 42-byte ids, outpoints / heights fit their
-    fields; Rollback leaves the cursor alone) and the cursor is below the "syncedto" collision height -/
+    loop and the cursor), the importing wallets' cursors.  Beside canonicity: the cursor is below the "syncedto" collision
+    height, and the working balances Rollback writes back fit 8 bytes under 42-byte ids (`RollbackBals`, a fact about the
+    bytes the step itself produces).  That Rollback never writes bucket `sync`, that the coinbase outpoints it collects
+    and the heights it visits fit their fields are PROVED (`MW.Lemmas.LedBytesFrame`) -/
 theorem disconnect_block_on_bytes {E : MW.LedBytes.Env} {c : Ctx} (R : RbEnv E c) (P : PendEnv E c.own) {bs : BStore}
-    (hC : CanonS E bs) {height : Nat} (hcur : syncedToOf bs.sync < collisionHeight) (hout : RollbackOut R bs height)
-    (hcur1 : ∀ bs1, rollbackB R P bs height = .ok bs1 → syncedToOf bs1.sync = syncedToOf bs.sync) :
+    (hC : CanonS E bs) {height : Nat} (hcur : syncedToOf bs.sync < collisionHeight) (hb : RollbackBals R bs height) :
     (disconnectBlockB R P bs height).map (absStore E) = disconnectBlock c (absStore E bs) height ∧
     ∀ bs', disconnectBlockB R P bs height = .ok bs' → CanonS E bs' :=
-  disconnectBlock_on_bytes R P hC hcur hout hcur1
+  disconnectBlock_on_bytes' R P hC hcur hb
 
 /-- (Round 6) `filter_block_on_bytes` — THE CONNECT STEP ON BYTES: filterBlock's node check, onRelevantBlockConnected
     (FetchAllMinedBalance restricted to the ready wallets, `ledger_on_bytes` per relevant record, UpdateMinedBalances),
@@ -758,8 +758,8 @@ example : MW.LedBytes.Ex.trB0.WF MW.LedBytes.Ex.E1 ∧ MW.LedBytes.Ex.trB0.Abs M
   ⟨MW.LedBytes.Ex.trB0_wf, MW.LedBytes.Ex.trB0_abs⟩
 example : ∃ sb', addRelevantMinedB {} (fun bs => bs) MW.LedBytes.Ex.trB0 ⟨5, MW.LedBytes.Ex.h32 9⟩ 77 ({}, []) = .ok sb' ∧
     sb'.1.c.length = 1 ∧ sb'.1.u.length = 1 ∧ sb'.1.b.length = 1 ∧ sb'.1.t.length = 1 := MW.LedBytes.Ex.step0_ok
-example : RollbackOut MW.LedBytes.Ex.R0 {} 1 ∧ BlockRoom (absStore MW.LedBytes.Ex.E0 {}) 5 :=
-  ⟨MW.LedBytes.Ex.rollbackOut_empty, MW.LedBytes.Ex.blockRoom_empty _ 5⟩
+example : RollbackBals MW.LedBytes.Ex.R0 {} 1 ∧ BlockRoom (absStore MW.LedBytes.Ex.E0 {}) 5 :=
+  ⟨fun acc h => (MW.LedBytes.Ex.rollbackOut_empty acc h).1, MW.LedBytes.Ex.blockRoom_empty _ 5⟩
 example : (⟨List.replicate 32 1, 5, [List.replicate 32 2, List.replicate 32 3]⟩ : Model.TxmgrCodec.BlockRecB).WF :=
   ⟨by decide, by decide, by decide, by decide, by decide⟩
 end LedBytes
